@@ -368,3 +368,13 @@ func sortedKeys(m map[string]string) []string {
 	sort.Strings(ks)
 	return ks
 }
+
+// renderKey is a canonical string of the rendered files (distinctness of cases).
+func (p *Prog) renderKey() string {
+	m := p.render()
+	var sb strings.Builder
+	for _, k := range sortedKeys(m) {
+		sb.WriteString(k + "\x01" + m[k] + "\x02")
+	}
+	return sb.String()
+}
